@@ -317,6 +317,54 @@ def resolve_owner(f, operand, want_mut=False, depth=0):
 
 
 
+def resolve_owner_path(f, operand, want_mut=False, depth=0):
+    """Like resolve_owner, but also follows borrows of fields: returns (local, (field names...)) of the
+    borrowed place, or None."""
+    p = core.op_place(operand)
+    if p is None or depth > 20:
+        return None
+    l = p["local"]
+    ds = [d for d in f.defs_of(l) if not f.blocks[d[0]]["cleanup"]]
+    if len(ds) == 1 and ds[0][1] == "term" and not p["proj"]:
+        t = ds[0][2]
+        dty = f.locals[l]["ty"]
+        if dty.get("k") == "ref" and t["args"] and (not want_mut or dty.get("mut")):
+            a0 = core.op_place(t["args"][0])
+            if a0 is not None and f.locals[a0["local"]]["ty"].get("k") == "ref":
+                return resolve_owner_path(f, t["args"][0], want_mut, depth + 1)
+    if len(ds) != 1 or ds[0][1] == "term":
+        return (l, ()) if not p["proj"] else None
+    d = ds[0][2]
+    if d["k"] != "assign":
+        return None
+    rv = d["rv"]
+    if rv["k"] == "ref":
+        if want_mut and rv["bk"] != "mut":
+            return None
+        pl = rv["place"]
+        path = []
+        base = pl["local"]
+        through_ref = False
+        for n, e in enumerate(pl["proj"]):
+            if e["k"] == "deref" and n == 0:
+                through_ref = True
+            elif e["k"] == "field":
+                path.append(e.get("name", str(e["i"])) if "adt" in e else str(e["i"]))
+            elif e["k"] == "downcast":
+                path.append("@" + str(e.get("variant", e["idx"])))
+            else:
+                return None
+        if through_ref:
+            inner = resolve_owner_path(f, {"k": "copy", "place": {"local": base, "proj": []}}, want_mut, depth + 1)
+            if inner is None:
+                return None
+            return (inner[0], inner[1] + tuple(path))
+        return (base, tuple(path))
+    if rv["k"] in ("use", "cast"):
+        return resolve_owner_path(f, rv["op"], want_mut, depth + 1)
+    return None
+
+
 def ref_sinks(f, owner):
     """For every `&mut owner` borrow: the stripped callee paths the reference (through reborrows and
     casts) is passed to; None entries mean the reference is stored / used in another way."""
@@ -338,8 +386,17 @@ def ref_sinks(f, owner):
                         continue
                     if kind == "stmt":
                         rv = item["rv"]
-                        if rv["k"] in ("ref", "use", "cast", "rawptr") and not item["place"]["proj"]:
-                            work.append(item["place"]["local"])
+                        pl = item["place"]
+                        if pl["local"] == x and pl["proj"] and pl["proj"][0]["k"] == "deref":
+                            # a store through the reference: harmless for lengths unless the pointee is
+                            # itself a vector / array / slice value that gets replaced wholesale
+                            pointee = f.locals[x]["ty"].get("ty", {})
+                            if len(pl["proj"]) == 1 and pointee.get("k") in ("adt", "array", "slice"):
+                                sinks.append(None)
+                            else:
+                                sinks.append("store-through")
+                        elif rv["k"] in ("ref", "use", "cast", "rawptr") and not pl["proj"]:
+                            work.append(pl["local"])
                         else:
                             sinks.append(None)
                     elif kind == "call":
